@@ -12,6 +12,7 @@ import Driver.CN
 import Driver.RC
 import Driver.CC
 import Driver.RX
+import Driver.E2E
 /-!
 Line-protocol driver: one operation per input line, one observation per output line:
 `<model observation>\t<spec observation>`.  First token selects the component.
@@ -33,6 +34,7 @@ structure All where
   rc : RC.St := {}
   cc : CC.St := {}
   rx : RX.St := {}
+  e2e : E2E.St := {}
 
 def stepAll (s : All) (line : String) : All × String :=
   match (line.trimAscii.toString.splitOn " ").filter (· ≠ "") with
@@ -75,6 +77,9 @@ def stepAll (s : All) (line : String) : All × String :=
   | "cc" :: args =>
       let (c, a, b) := CC.step s.cc args
       ({ s with cc := c }, a ++ "\t" ++ b)
+  | "e2e" :: args =>
+      let (c, a, b) := E2E.step s.e2e args
+      ({ s with e2e := c }, a ++ "\t" ++ b)
   | "rx" :: args =>
       let (c, a, b) := RX.step s.rx args
       ({ s with rx := c }, a ++ "\t" ++ b)
